@@ -9,13 +9,15 @@ import stitch_streams as SS
 
 MODULE = "Props.C07"
 THEOREMS = ["C07_plan_covers_requested_columns", "C13_solve_wellFormed", "C13_solveWithFeatures_shape", "C12_columns_union", "C12_doStitch_real_rows",
-            "C11_null_range", "C11_string_result", "C10_microdata_rows", "C07_buildTable_columns", "C08_materialize_rows"]
+            "C11_null_range", "C11_string_result", "C10_microdata_rows", "C07_buildTable_columns"]
 PARTIAL = ["totality (that sample() completes) is not a Lean theorem: the composed model `buildTable` reproduces sample() value for value (S-sampleN) "
            "and the schema clause is proved of it (C07_buildTable_columns: the assembled table has exactly the plan's columns; with "
            "C13_solve_wellFormed / C07_plan_covers_requested_columns: every input column once); cells: decoded per kind, nulls only from the "
            "null range, strings verbatim-or-mask (C11); pandas (astype) and scikit-learn (scaler, RFECV) are outside the model; sample() is run "
            "on every generated table under every strategy and its schema, dtypes and cell domains are checked",
-           "known finding: RecursionError for float columns holding two values closer than ~2^-900 of the column range (C07 recursion-depth-add_row)"]
+           "known finding: RecursionError for float columns holding two values closer than ~2^-900 of the column range (C07 recursion-depth-add_row)",
+           "known finding F14: synthesis raises ValueError when one cluster's microtable is empty while the table so far is not (raises-empty-cluster); "
+           "the model has the same error branch (doPatch / doStitch throw `value`)"]
 ASSUMPTIONS = []
 TRUSTED = ["typed-table generator (1-7 columns, 1..400 rows, all kinds, nulls in float/str/timestamp columns), strategy generator"]
 
@@ -86,8 +88,12 @@ def stream_sample(ctx, ntables):
             except RecursionError:
                 ctx.oracle_fail("RecursionError during synthesis", {"table": ES.typed_summary(t), "strategy": desc}, "recursion-depth-add_row"); continue
             except Exception as e:
+                # known finding F14: a cluster whose microtable comes out empty while the table so far is not (patch: randint(0, -1);
+                # stitch: the deliberate "Empty sequence in cluster")
+                empty_cluster = isinstance(e, ValueError) and ("empty range in randrange(0, 0)" in str(e) or "Empty sequence in cluster" in str(e))
                 ctx.oracle_fail(f"synthesis raised {type(e).__name__}: {str(e)[:200]} ({desc})",
-                                {"table": ES.typed_summary(t), "strategy": desc, "head": t["df"].head(5).astype(str).values.tolist()}, "raises"); continue
+                                {"table": ES.typed_summary(t), "strategy": desc, "head": t["df"].head(5).astype(str).values.tolist()},
+                                "raises-empty-cluster" if empty_cluster else "raises"); continue
             multi = len(syn.clusters.derived_clusters) > 0
             S.count((repr(t["df"].values.tolist()), desc, repr(t["ap"])), ncols >= 3 or multi,
                     {"table": ES.typed_summary(t), "strategy": desc, "clusters": PS.clusters_str(syn.clusters), "rows_out": len(out)}, tag=desc.split("-")[0] + ("/multi" if multi else ""))
